@@ -297,6 +297,21 @@ class Exec(Engine):
             return V(t, z3.K(sort_of(t[1]), FALSE))
         return coerce(v, t)
 
+    # ------------------------------------------------------------------ with (resource managers whose __exit__ does not swallow exceptions: open())
+    def st_With(self, stmt, st):
+        states = [st]
+        for item in stmt.items:
+            nxt = []
+            for s in states:
+                for s2, v in self.ev(item.context_expr, s):
+                    if v.t != ("opaque", "File"):
+                        raise OutOfSubset(f"with-statement over {v.t}: only open(...) is modelled")
+                    if item.optional_vars is not None:
+                        self.assign(item.optional_vars, v, s2, stmt)
+                    nxt.append(s2)
+            states = nxt
+        return self.run_block(stmt.body, states)
+
     # ------------------------------------------------------------------ if
     def st_If(self, stmt, st):
         out = []
